@@ -80,6 +80,23 @@ static void checkPublished(const lg::Pair &p, const pub::L &L) {
     }
     bool ok; u64 got = bitsAt(bytes, f.off, f.len, ok);
     if (!ok) { C.fail(fieldKey(p.id, f.name), "field lies beyond the payload (%zu bytes)", bytes.size()); continue; }
+    // enumerated field: the value that was passed is looked up BY NAME among the library's enumerators (their values as the
+    // compiler sees them in the real headers); the wire must carry the PUBLISHED numeric code of that name
+    if (lf.kind == lg::K_ENUM) {
+      for (int e = 0; e < pub::nEnumFields; e++) {
+        const pub::EF &ef = pub::enumFields[e];
+        if (strcmp(ef.id, L.id) || strcmp(ef.field, f.name)) continue;
+        for (int k2 = 0; k2 < ef.n; k2++) {
+          long long lib = 0; bool found = false;
+          for (int q = 0; q < lg::nEnumVals; q++) if (!strcmp(lg::enumVals[q].name, ef.ev[k2].name)) { lib = lg::enumVals[q].value; found = true; }
+          if (!found) { C.fail(fieldKey(p.id, f.name), "the library has no enumerator %s", ef.ev[k2].name); continue; }
+          if (lib != in.v.i) continue;
+          C.count("published_code_point_checks");
+          u64 want = (u64)ef.ev[k2].code & maskBits(f.len);
+          if (got != want) C.fail(fieldKey(p.id, f.name), "%s passed, bits [%d,%d) hold %llu, the published code is %llu", ef.ev[k2].name, f.off, f.off + f.len, got, want);
+        }
+      }
+    }
     if (got != expect)
       C.fail(fieldKey(p.id, f.name), "bits [%d,%d) hold %llu, the published definition gives %llu (%s class %s)", f.off, f.off + f.len, got, expect, f.param, in.cls);
   }
